@@ -38,6 +38,14 @@ def sites(text, ops):
         for m in re.finditer(r"\n\s*if [^\n{]*\|\|[^\n{]*\{\n\s*return Err", text):
             k = text.index("||", m.start())
             out.append((k, k + 2, "&&", "and"))
+    if "eval0" in ops:    # "the evaluator is party 0": every use of p_eval as a value replaced by 0
+        for m in re.finditer(r"(?<![\w.])p_eval(?![\w])", text):
+            ls = text.rfind("\n", 0, m.start()) + 1
+            line_txt = text[ls:text.find("\n", m.end())]
+            # skip bindings / field shorthand (`p_eval,` inside a destructuring pattern or struct literal) and comments
+            if re.match(r"\s*p_eval,\s*$", line_txt) or line_txt.strip().startswith("//") or "p_eval:" in line_txt:
+                continue
+            out.append((m.start(), m.end(), "0", "eval0"))
     if "cmp" in ops:      # off-by-one in a comparison that guards a flush / bound
         for m in re.finditer(r" >= ", text):
             out.append((m.start(), m.end(), " > ", "cmp"))
